@@ -457,7 +457,7 @@ theorem C09_sim_equals_theta1 (M : Static) (F : ResFn) (hE : M.L.nE = 0)
       linarith
     refine ⟨hd, ?_⟩
     rw [henv hd]
-    exact fun v hv => hz v (by simp [hv])
+    exact fun v hv => hz v (List.mem_append_left _ (List.mem_append_left _ hv))
   · rintro ⟨hd, hrow⟩ v hv
     rw [henv hd] at hrow
     simp only [List.append_nil, List.mem_append, List.mem_map, List.mem_range] at hv
